@@ -182,6 +182,8 @@ class CheckRun:
     # ------------------------------------------------------------------ finish
     def finish(self):
         (REPLAYS / self.prop).mkdir(parents=True, exist_ok=True)
+        for old in (REPLAYS / self.prop).glob("*.json"):  # records of earlier runs say nothing about this tree
+            old.unlink()
         EVIDENCE.mkdir(parents=True, exist_ok=True)
         obligations = discharged = 0
         functions = []
